@@ -96,6 +96,79 @@ fn run(o: u32, i: &Input) -> R {
     }
 }
 
+
+// ---------------------------------------------------------------- all entry points agree in full
+/// Canonical rendering of a complete parse result (value, code map / error with position and span).
+fn full_str<E>(r: &Result<(Value, CodeMap), Error<E>>) -> String {
+    match r {
+        Ok((v, cm)) => format!("OK {} | {}", value_str(v), codemap_str(cm)),
+        Err(e) => format!("ERR {} P{} S{}-{}", error_str(e), e.position(), e.span().start(), e.span().end()),
+    }
+}
+
+fn full<E>(r: Result<(Value, CodeMap), Error<E>>) -> String {
+    let s = full_str(&r);
+    if let Ok((v, _)) = r {
+        drop_deep(v);
+    }
+    s
+}
+
+/// `EP=1` when every text entry point returns exactly what `parse_str_with` returns under the
+/// same options (the option-less ones only for the strict record); otherwise the name of the
+/// first entry point that differs.  The model answers `EP=1` (C01_entry_points_text).
+pub fn entry_points_agree(s: &str, o: u32) -> String {
+    type Inf = std::convert::Infallible;
+    let reference = full(Value::parse_str_with(s, opts(o)));
+    let mut all: Vec<(&str, String)> = vec![
+        ("parse_utf8_with", full(Value::parse_utf8_with(s.chars().map(Ok::<char, Inf>), opts(o)))),
+        ("parse_utf8_infallible_with", full(Value::parse_utf8_infallible_with(s.chars(), opts(o)))),
+        ("parse_with", full(Value::parse_with(s.chars().map(|c| Ok::<_, Inf>(decoded(c))), opts(o)))),
+        ("parse_infallible_with", full(Value::parse_infallible_with(s.chars().map(decoded), opts(o)))),
+        ("parse_slice_with", full(Value::parse_slice_with(s.as_bytes(), opts(o)))),
+    ];
+    if o == 0 {
+        all.push(("parse_str", full(Value::parse_str(s))));
+        all.push(("parse_utf8", full(Value::parse_utf8(s.chars().map(Ok::<char, Inf>)))));
+        all.push(("parse_infallible_utf8", full(Value::parse_infallible_utf8(s.chars()))));
+        all.push(("parse", full(Value::parse(s.chars().map(|c| Ok::<_, Inf>(decoded(c)))))));
+        all.push(("parse_infallible", full(Value::parse_infallible(s.chars().map(decoded)))));
+        all.push(("parse_slice", full(Value::parse_slice(s.as_bytes()))));
+        let fs = match s.parse::<Value>() {
+            Ok(v) => {
+                let t = format!("OK {}", value_str(&v));
+                drop_deep(v);
+                t
+            }
+            Err(e) => format!("ERR {} P{} S{}-{}", error_str(&e), e.position(), e.span().start(), e.span().end()),
+        };
+        let want = if reference.starts_with("OK ") { reference.split(" | ").next().unwrap().to_string() } else { reference.clone() };
+        if fs != want {
+            return "EP=from_str".into();
+        }
+    }
+    for (name, got) in all {
+        if got != reference {
+            return format!("EP={name}");
+        }
+    }
+    "EP=1".into()
+}
+
+fn ep_suffix(o: u32, i: &Input) -> String {
+    match i {
+        Input::Text(s) => format!(" {}", entry_points_agree(s, o)),
+        Input::Bytes(b) => {
+            // bytes: the option-less byte entry point agrees with the explicit one
+            if o == 0 && full(Value::parse_slice(b)) != full(Value::parse_slice_with(b, opts(0))) {
+                " EP=parse_slice".into()
+            } else {
+                " EP=1".into()
+            }
+        }
+    }
+}
+
 // ---------------------------------------------------------------- C02: the value (and key lookups)
 pub fn eval_c02(line: &str) -> String {
     let line = line.to_string();
@@ -103,7 +176,7 @@ pub fn eval_c02(line: &str) -> String {
         Some((o, i)) => finish(run(o, &i), |r| match r {
             Ok((v, _)) => format!("OK {} | {}", value_str(v), lookups(v)),
             Err(_) => "ERR".into(),
-        }),
+        }) + &ep_suffix(o, &i),
         None => format!("BADCASE {line}"),
     })
 }
@@ -169,14 +242,14 @@ pub fn eval_c05(line: &str) -> String {
                 Ok((v, cm)) => format!("OK {} T{}", codemap_str(cm), v.traverse().count()),
                 Err(_) => "ERR".into(),
             };
-            match &i {
+            (match &i {
                 Input::Text(s) => {
                     let a = finish(Value::parse_str_with(s, opts(o)), show);
                     let b = finish(Value::parse_slice_with(s.as_bytes(), opts(o)), show);
                     format!("{a} ; {b}")
                 }
                 Input::Bytes(_) => finish(run(o, &i), show),
-            }
+            }) + &ep_suffix(o, &i)
         }
         None => format!("BADCASE {line}"),
     })
@@ -191,14 +264,14 @@ pub fn eval_c07(line: &str) -> String {
                 Ok(_) => "OK".to_string(),
                 Err(e) => format!("ERR {} P{} S{}-{}", error_str(e), e.position(), e.span().start(), e.span().end()),
             };
-            match &i {
+            (match &i {
                 Input::Text(s) => {
                     let a = finish(Value::parse_str_with(s, opts(o)), show);
                     let b = finish(Value::parse_slice_with(s.as_bytes(), opts(o)), show);
                     format!("{a} ; {b}")
                 }
                 Input::Bytes(_) => finish(run(o, &i), show),
-            }
+            }) + &ep_suffix(o, &i)
         }
         None => format!("BADCASE {line}"),
     })
@@ -211,7 +284,7 @@ pub fn eval_c12(line: &str) -> String {
         Some((o, i)) => finish(run(o, &i), |r| match r {
             Ok((v, cm)) => format!("OK {} | {}", value_str(v), codemap_str(cm)),
             Err(e) => format!("ERR {}", error_str(e)),
-        }),
+        }) + &ep_suffix(o, &i),
         None => format!("BADCASE {line}"),
     })
 }
@@ -763,6 +836,61 @@ fn surrogate_sequences(out: &mut Out, os: &[u32]) {
     }
 }
 
+
+/// E8: objects with many distinct keys (several growth / rehash cycles of the key index while
+/// the parser pushes entries), duplicates of early keys after each growth, nested.
+fn e8(out: &mut Out, os: &[u32], full: bool, rng: &mut Rng) {
+    let sizes: &[usize] = if full { &[4, 5, 7, 8, 9, 14, 15, 16, 28, 29, 30, 56, 57, 58, 64, 113, 120] } else { &[4, 5, 8, 9, 15, 16, 29, 30, 58] };
+    for &n in sizes {
+        for variant in 0..(if full { 6 } else { 3 }) {
+            let mut r = rng.fork();
+            let mut s = String::from("{");
+            let mut count = 0usize;
+            for i in 0..n {
+                if count > 0 {
+                    s.push(',');
+                }
+                // key names: short ASCII, some non-ASCII, some escaped spellings of the same key
+                let key = match (variant, i % 7) {
+                    (1, 3) => format!("\"k{}\u{00e9}\"", i),
+                    (2, 5) => format!("\"\\u006b{}\"", i),
+                    _ => format!("\"k{}\"", i),
+                };
+                s.push_str(&key);
+                s.push(':');
+                if variant == 2 && i == n / 2 {
+                    // a nested wide object
+                    s.push('{');
+                    for j in 0..n.min(20) {
+                        if j > 0 {
+                            s.push(',');
+                        }
+                        s.push_str(&format!("\"n{}\":{}", j % (n.min(20) - 1).max(1), j));
+                    }
+                    s.push('}');
+                } else {
+                    s.push_str(&format!("{}", i));
+                }
+                count += 1;
+                // after (roughly) each power of two, repeat an early key: a duplicate whose first
+                // occurrence was inserted before the table grew
+                if (i + 1).is_power_of_two() || r.chance(1, 9) {
+                    let e = r.below(i + 1);
+                    s.push_str(&format!(",\"k{}\":null", e));
+                    count += 1;
+                }
+            }
+            s.push('}');
+            for &o in os {
+                out.case_str(&text_case(o, &s));
+                if variant == 0 {
+                    out.case_str(&bytes_case(o, format!("[{s}, {s}]").as_bytes()));
+                }
+            }
+        }
+    }
+}
+
 /// The shared suite.  `os` = option records to exercise.
 pub fn suite(args: &Args, out: &mut Out, os: &[u32], weight: usize) {
     let mut rng = Rng::new(args.seed);
@@ -790,6 +918,7 @@ pub fn suite(args: &Args, out: &mut Out, os: &[u32], weight: usize) {
         (true, _) => 60000,
     };
     e7(out, os, n7, &mut rng);
+    e8(out, os, full, &mut rng);
 }
 
 pub fn generate_c01(args: &Args, out: &mut Out) {
